@@ -180,6 +180,49 @@ func (L *LockInfo) closureEntry(fn *ssa.Function, fromCallers lockSet) lockSet {
 			nk.Base = "outer:" + k.Base
 			tr[nk] = true
 		}
+		// the closure handed to a repo helper that calls it (`withLock(func() …)`): what the helper holds at that call
+		for _, r := range *mc.Referrers() {
+			call, ok := r.(*ssa.Call)
+			if !ok {
+				continue
+			}
+			h, ok := call.Call.Value.(*ssa.Function)
+			if !ok || h.Blocks == nil || !L.P.isRepoPkg(pkgOf(h)) {
+				continue
+			}
+			for j, a := range call.Call.Args {
+				if a != ssa.Value(mc) || j >= len(h.Params) {
+					continue
+				}
+				var inside lockSet
+				for _, ci := range callsIn(h) {
+					if _, isGo := ci.(*ssa.Go); isGo {
+						continue
+					}
+					if ci.Common().Value != ssa.Value(h.Params[j]) {
+						continue
+					}
+					hs := lockSet{}
+					for k := range L.at[ci.(ssa.Instruction)] {
+						nk := k
+						if k.Base == "this" && h.Signature.Recv() != nil && len(call.Call.Args) > 0 {
+							nk.Base = "outer:" + L.P.baseName(parent, call.Call.Args[0])
+						} else {
+							nk.Base = "outer:callee:" + k.Base
+						}
+						hs[nk] = true
+					}
+					if inside == nil {
+						inside = hs
+					} else {
+						inside = intersect(inside, hs)
+					}
+				}
+				for k := range inside {
+					tr[k] = true
+				}
+			}
+		}
 		if res == nil {
 			res = tr
 		} else {
@@ -261,6 +304,12 @@ func (L *LockInfo) held(ins ssa.Instruction, field, base string) bool {
 		b := strings.TrimPrefix(strings.TrimPrefix(strings.TrimPrefix(k.Base, "outer:"), "caller:"), "outer:")
 		if k.Base == base || b == base {
 			return true
+		}
+		// inside a closure the receiver of the enclosing method is named by its parameter
+		if root := rootFn(ins.Parent()); root != ins.Parent() && root.Signature.Recv() != nil && len(root.Params) > 0 {
+			if base == "param:"+root.Params[0].Name() && b == "this" {
+				return true
+			}
 		}
 	}
 	return false
